@@ -136,7 +136,16 @@ enum Ev {
     Balance { exchange: usize, k: usize, t: i64, total: i64 },
     FullSnapshot { exchange: usize, t: i64, orders: Vec<(usize, String, i64)> },
     ConfirmOpen { instr: usize, cid: String, t: i64, filled: i64 },
-    CancelResp { instr: usize, cid: String, ok: bool, t: i64 },
+    CancelResp {
+        instr: usize,
+        cid: String,
+        ok: bool,
+        t: i64,
+        /// which failure the exchange reports when `!ok`: 0 timeout, 1 already cancelled, 2 already fully
+        /// filled, 3 rate limit, 4 rejected
+        #[serde(default)]
+        err: u8,
+    },
     OrderDone { instr: usize, cid: String, kind: u8, t: i64 },
     Fill { instr: usize, buy: bool, t: i64, price: i64, qty: i64, fee: i64 },
     MarketReconnect { exchange: usize },
@@ -190,11 +199,22 @@ fn to_engine_event(ev: &Ev, idx: usize, ins: &IndexedInstruments) -> Option<Engi
             )
         }
         Ev::ConfirmOpen { instr, cid, t, filled } => fixtures::ev_order_snapshot(EXCH_OF[*instr], *instr, cid, Side::Buy, Decimal::from(100), Decimal::from(QTY), open_state(cid, *t, *filled)),
-        Ev::CancelResp { instr, cid, ok, t } => fixtures::ev_cancel_response(
+        Ev::CancelResp { instr, cid, ok, t, err } => fixtures::ev_cancel_response(
             EXCH_OF[*instr],
             *instr,
             cid,
-            if *ok { Ok(Cancelled { id: OrderId::new(format!("x{cid}")), time_exchange: fixtures::t(*t) }) } else { Err(OrderError::Connectivity(ConnectivityError::Timeout)) },
+            if *ok {
+                Ok(Cancelled { id: OrderId::new(format!("x{cid}")), time_exchange: fixtures::t(*t) })
+            } else {
+                use barter_execution::error::ApiError;
+                Err(match err {
+                    1 => OrderError::Rejected(ApiError::OrderAlreadyCancelled),
+                    2 => OrderError::Rejected(ApiError::OrderAlreadyFullyFilled),
+                    3 => OrderError::Rejected(ApiError::RateLimit),
+                    4 => OrderError::Rejected(ApiError::OrderRejected("scripted".into())),
+                    _ => OrderError::Connectivity(ConnectivityError::Timeout),
+                })
+            },
         ),
         Ev::OrderDone { instr, cid, kind, t } => fixtures::ev_order_snapshot(
             EXCH_OF[*instr],
@@ -699,7 +719,7 @@ fn gen_events(rng: &mut Rng, max_len: usize, start_enabled: bool) -> Vec<Ev> {
                 None => Ev::Market { instr: 0, t, price: 100 },
             },
             40..=45 => match pick_known(rng, &known) {
-                Some((i, c)) => Ev::CancelResp { instr: i, cid: c, ok: rng.bool(), t },
+                Some((i, c)) => Ev::CancelResp { instr: i, cid: c, ok: rng.bool(), t, err: rng.below(5) as u8 },
                 None => Ev::Market { instr: 1, t, price: 100 },
             },
             46..=49 => match pick_known(rng, &known) {
@@ -749,6 +769,8 @@ fn gen_events(rng: &mut Rng, max_len: usize, start_enabled: bool) -> Vec<Ev> {
         // simulate the engine's consumption of queued batches
         match &ev {
             Ev::QueueAlgo(batch) => queue.push_back(batch.clone()),
+            // environment only: nothing is processed by the engine, so no batch is consumed
+            Ev::BreakLink { .. } => {}
             other => {
                 if let Ev::Trading(on) = other {
                     enabled = *on;
@@ -770,6 +792,50 @@ fn gen_events(rng: &mut Rng, max_len: usize, start_enabled: bool) -> Vec<Ev> {
         evs.push(Ev::Shutdown);
     }
     evs
+}
+
+/// Assumption B re-checked on a candidate history (the shrinker deletes events, which can move the tick on
+/// which a queued batch is consumed): every exchange report names an order whose open request has been
+/// issued by an EARLIER event.
+fn respects_assumption_b(events: &[Ev], start_enabled: bool) -> bool {
+    let mut issued: std::collections::HashSet<&str> = Default::default();
+    let mut enabled = start_enabled;
+    let mut queue: std::collections::VecDeque<&Vec<Req>> = Default::default();
+    for ev in events {
+        let named: Vec<&str> = match ev {
+            Ev::ConfirmOpen { cid, .. } | Ev::CancelResp { cid, .. } | Ev::OrderDone { cid, .. } => vec![cid.as_str()],
+            Ev::FullSnapshot { orders, .. } => orders.iter().map(|o| o.1.as_str()).collect(),
+            _ => vec![],
+        };
+        if named.iter().any(|c| !issued.contains(c)) {
+            return false;
+        }
+        match ev {
+            Ev::QueueAlgo(batch) => queue.push_back(batch),
+            // environment only: nothing is processed by the engine, so no batch is consumed
+            Ev::BreakLink { .. } => {}
+            other => {
+                if let Ev::CmdOpen(reqs) = other {
+                    for r in reqs {
+                        issued.insert(r.cid.as_str());
+                    }
+                }
+                if let Ev::Trading(on) = other {
+                    enabled = *on;
+                }
+                if enabled {
+                    if let Some(batch) = queue.pop_front() {
+                        for r in batch.iter() {
+                            if r.open && !r.cid.ends_with("!r") {
+                                issued.insert(r.cid.as_str());
+                            }
+                        }
+                    }
+                }
+            }
+        }
+    }
+    true
 }
 
 #[derive(Debug, Clone, Serialize, Deserialize, PartialEq)]
@@ -809,7 +875,7 @@ fn execute(case: &Case, report: &mut Report) {
             report.case(h, true);
             let small = shrink(&case.events, |cand| {
                 let c = Case { events: cand.to_vec(), snap_at: case.snap_at.min(cand.len() / 2), ..case.clone() };
-                matches!(run_case(&c), Err((s, _)) if s == sig)
+                respects_assumption_b(cand, case.enabled) && matches!(run_case(&c), Err((s, _)) if s == sig)
             });
             let c = Case { snap_at: case.snap_at.min(small.len() / 2), events: small, ..case.clone() };
             let detail = match run_case(&c) {
